@@ -3,8 +3,9 @@ Model/Container/ApeFile.lean — files that carry an APEv2 tag at the end (WavPa
 Audio, OptimFROG, TAK, APEv2File): `[audio][APEv2 tag][Lyrics3v2?][ID3v1?]`.
 
 Code side (mutagen/apev2.py `_APEv2Data`, `APEv2.save`, `APEv2.delete`): `locate`, `save`, `delete` as
-functions from the bytes of the file to the bytes of the file, with the semantics of an in-memory
-file object for the seeks (`seek(-n, 2)` / `seek(-n, 1)` before the start of the file clamp to 0).
+functions from the bytes of the file to the bytes of the file.  The backward seeks that may end in front of
+the file go through `_seek_back`, which raises IOError there on every kind of file object (an in-memory one
+would stop at offset 0): the models have a guard at each of them.
 The rendered tag (header + items + footer) is a parameter; Model/Ape.lean has its codec.
 -/
 import MutagenModel.Model.Ape
@@ -35,35 +36,45 @@ deriving DecidableEq, Repr
 
 def isApeAt (f : Bytes) (pos : Nat) : Bool := readAt f pos 8 == apeMagic
 
-/-- `_APEv2Data.__find_metadata` -/
+/-- `_APEv2Data.__find_metadata`.  Every backward seek whose target would lie in front of the file
+(`_seek_back`: `tell() < offset`) is an IOError on every kind of file object: a file shorter than 32 bytes
+has no tag; inside the `try … except IOError: pass` of the ID3v1 / Lyrics3v2 search the search is over and the
+check for a tag at the start follows.  (`int6` yields natural numbers only; what else `int()` accepts — signs,
+blanks, underscores — is in `pyInt` of Model/Container/ApeFileM.lean.) -/
 def findMetadata (f : Bytes) : Meta :=
   let n := f.length
-  let p1 := n - 32
-  if isApeAt f p1 then .footer p1
+  -- seek(0, 2); _seek_back(32)
+  if n < 32 then .nothing
   else
-    let viaV1 : Option Nat :=
-      if n < 128 then none
-      else if readAt f (n - 128) 3 != tagMagic then none
-      else
-        -- "TAG" read: position n-125; seek(-35, 1)
-        let p2 := (n - 125) - 35
-        if isApeAt f p2 then some p2
+    let p1 := n - 32
+    if isApeAt f p1 then .footer p1
+    else
+      let viaV1 : Option Nat :=
+        if n < 128 then none
+        else if readAt f (n - 128) 3 != tagMagic then none
+        -- "TAG" read: position n-125; _seek_back(35)
+        else if n - 125 < 35 then none
         else
-          -- after read(8): p2 + 8; seek(15, 1); read(9)
-          let p3 := p2 + 8 + 15
-          if readAt f p3 9 != lyricsEnd then none
+          let p2 := (n - 125) - 35
+          if isApeAt f p2 then some p2
           else
-            -- after read(9): p3 + 9; seek(-15, 1); read(6)
-            let p4 := (p3 + 9) - 15
-            match int6 (readAt f p4 6) with
-            | none => none
-            | some off =>
-              -- after read(6): p4 + 6; seek(-32 - off - 6, 1)
-              let p5 := (p4 + 6) - (32 + off + 6)
-              if isApeAt f p5 then some p5 else none
-    match viaV1 with
-    | some p => .footer p
-    | none => if isApeAt f 0 then .headerAtStart else .nothing
+            -- after read(8): p2 + 8; seek(15, 1); read(9)
+            let p3 := p2 + 8 + 15
+            if readAt f p3 9 != lyricsEnd then none
+            else
+              -- after read(9): p3 + 9; seek(-15, 1); read(6)
+              let p4 := (p3 + 9) - 15
+              match int6 (readAt f p4 6) with
+              | none => none
+              | some off =>
+                -- after read(6): p4 + 6; _seek_back(32 + off + 6)
+                if p4 + 6 < 32 + off + 6 then none
+                else
+                  let p5 := (p4 + 6) - (32 + off + 6)
+                  if isApeAt f p5 then some p5 else none
+      match viaV1 with
+      | some p => .footer p
+      | none => if isApeAt f 0 then .headerAtStart else .nothing
 
 /-- the located tag: everything `save`/`delete` use -/
 structure Loc where
@@ -73,11 +84,13 @@ structure Loc where
 deriving DecidableEq, Repr
 
 /-- the PyMusepack clean-up of `__fix_brokenness`: while 24 bytes before `start` there is another
-"APETAGEX", move `start` there (fuel = start: every step moves at least 24 bytes down) -/
+"APETAGEX", move `start` there (fuel = start: every step moves 24 bytes down); fewer than 24 bytes in front
+(`_seek_back(24)`: IOError, `break`): it stays -/
 def fixBroken (f : Bytes) : Nat → Nat → Nat
   | 0, start => start
   | fuel + 1, start =>
     if start = 0 then 0
+    else if start < 24 then start
     else
       let p := start - 24
       if isApeAt f p then fixBroken f fuel p else start
